@@ -1,11 +1,16 @@
 //! Harness binary `h_core <PROP> --seed S --tier T [--count N] [--replay F]`.
 //! One module per property (`cNN.rs`, `pub fn run(args: &hcore::Args, out: &mut hcore::Out)`).
 
+mod c20;
+mod c22;
+
 fn main() {
     let args = hcore::Args::parse();
     hcore::quiet_panics();
     let mut out = hcore::Out::new();
     match args.prop.as_str() {
+        "C20" => c20::run(&args, &mut out),
+        "C22" => c22::run(&args, &mut out),
         p => {
             let _ = &mut out;
             eprintln!("h_core: unknown property {p}");
